@@ -78,7 +78,16 @@ def r_forward_ingest(ctx, db, est, max_items=3, state_assume=None, ctor_args=Non
                     want = ref if kind == "extend" else alg.new("want", *(ctor_args(m) if ctor_args else []))
                     for itv in items:
                         alg.add(want, *item_values(m, itv))
-                    return leaf_map(got.v), leaf_map(want.v), len(items), iterators_ended(m)
+                    lg, lw = leaf_map(got.v), leaf_map(want.v)
+                    if any(is_float(v) and v[0] == "fn" and v[1] in ("min", "max") for v in list(lg.values()) + list(lw.values())):
+                        # selection estimators: compare which operand is selected, case by case
+                        import minmax_rules as MM
+                        lg = {k_: MM.resolve(m, v) for k_, v in lg.items()}
+                        lw = {k_: MM.resolve(m, v) for k_, v in lw.items()}
+                        for k_ in lg:
+                            if k_ in lw and lg[k_] != lw[k_] and MM.same_number(m, lg[k_], lw[k_]):
+                                lw[k_] = lg[k_]
+                    return lg, lw, len(items), iterators_ended(m)
                 return thunk, {}
             paths, stats = explore(db, setup, Config(release=True, max_items=max_items), 3000)
             ctx.count_run(Run(fp, paths, stats, kind))
